@@ -6,7 +6,7 @@ CONSTANTS
   Readers = {0, 1}
   RoundMod = 8
   Fix = {}
-  Record = TRUE
+  Record = 1
   R0s = {0, 6, 7}
   GetMins = {1, 3, 5, 8}
   BlockSizes = {1, 2, 3, 4}
